@@ -29,7 +29,7 @@ TIMEOUT = {"quick": 1500, "thorough": 5 * 3600}
 
 RULES = ["reemit_Neg", "reemit_Abs", "reemit_Relu", "reemit_Tanh", "swap_Add", "swap_Mul", "neg_abs", "neg_abs_fn", "neg_and_abs", "transpose3",
          "abs_plus_zero_init", "reemit_Neg_keep", "neg_abs_keep", "identity_identity", "mul_sub", "mul_sub_fn", "mul_sub", "mul_sub_fn", "neg_abs", "neg_abs_fn", "split_first", "split_first",
-         "sub_scaled", "sub_scaled"]
+         "sub_scaled", "sub_scaled", "identity_passthrough", "identity_passthrough"]
 
 
 def make_rule(name):
@@ -106,6 +106,10 @@ def make_rule(name):
         return pattern.RewriteRule(lambda op, x, y: op.Sub(x, y), repl_sub, **kw)
     if name == "identity_identity":
         return pattern.RewriteRule(lambda op, x: op.Identity(op.Identity(x)), lambda op, x: op.Identity(x), **kw)
+    if name == "identity_passthrough":
+        # the replacement creates no node at all: it returns the value bound to x (which may be a graph input, an initializer, a value
+        # with other uses, or a value of an enclosing graph)
+        return pattern.RewriteRule(lambda op, x: op.Identity(x), lambda op, x: x, **kw)
     raise ValueError(name)
 
 
@@ -119,7 +123,7 @@ def touched_ops(rule):
     if base.startswith(("reemit_", "swap_")):
         return {base.split("_")[1]}
     return {"split_first": {"Split"}, "mul_sub": {"Mul", "Sub"}, "mul_sub_fn": {"Mul", "Sub", "MulSub"}, "neg_abs": {"Neg", "Abs"}, "neg_abs_fn": {"Neg", "Abs", "NegAbs"}, "neg_and_abs": {"Neg", "Abs"}, "transpose3": {"Transpose"},
-            "abs_plus_zero_init": {"Abs", "Add"}, "identity_identity": {"Identity"}, "sub_scaled": {"Sub", "Add", "Mul"}, "mul_softmax_fn": {"Mul", "Softmax", "MulSoftmax"}}[base]
+            "abs_plus_zero_init": {"Abs", "Add"}, "identity_identity": {"Identity"}, "identity_passthrough": {"Identity"}, "sub_scaled": {"Sub", "Add", "Mul"}, "mul_softmax_fn": {"Mul", "Softmax", "MulSoftmax"}}[base]
 
 
 # ----------------------------------------------------------------------------- structural scans (independent of the rewriter)
@@ -171,8 +175,8 @@ def instance_exists(model, rule):
             for n in std:
                 if n.op_type == "Transpose" and any(a.name == "perm" and list(a.ints) == [1, 0] for a in n.attribute):
                     return where
-        elif base in ("abs_plus_zero_init", "sub_scaled", "mul_softmax_fn"):
-            pass  # needs the dtype of x: no completeness claim for this rule
+        elif base in ("abs_plus_zero_init", "sub_scaled", "mul_softmax_fn", "identity_passthrough"):
+            pass  # needs the dtype of x / may legitimately decline (subgraph outputs): no completeness claim for this rule
         elif base in ("neg_abs", "neg_abs_fn", "identity_identity", "mul_sub", "mul_sub_fn"):
             inner, outer = ("Mul", "Sub") if base.startswith("mul_sub") else ("Abs", "Neg") if base != "identity_identity" else ("Identity", "Identity")
             prod = {n.output[0]: n for n in std if n.op_type == inner}
@@ -311,8 +315,17 @@ def _plant(g):
     if v is None:
         return
     k = g.pick(["neg_abs", "neg_and_abs", "add", "mul", "transpose", "idid", "chain", "mul_sub", "mul_sub", "in_body", "in_body", "in_body", "split2", "split2",
-                "sub_same", "sub_same"])
+                "sub_same", "sub_same", "id_of_source", "id_of_source"])
     g.features.add("planted:c07:" + k)
+    if k == "id_of_source":
+        # Identity of a value that no node computes (graph input / initializer); the result becomes a graph output (planted results do)
+        src = g.pick_val(lambda t: t.kind in ("input", "const") and isinstance(t.arr, np.ndarray) and (t.kind == "input" or any(i.name == t.name for i in g.inits)))
+        if src is None:
+            return
+        r = g.emit("Identity", [src])
+        if r and g.chance(5):
+            g.emit("Neg" if src.dtype != modelgen.BOOL else "Not", [r[0]])
+        return r
     if k == "sub_same":
         f = g.pick_val(lambda t: t.dtype == modelgen.F32) or v
         return g.emit("Sub", [f, f if g.chance(7) else g._second(f)])
